@@ -877,13 +877,18 @@ def emit_probes(base):
 
 
 # ------------------------------------------------------------------ run
-def same_outcome(model_res, real_res, conv_fn):
-    """model: [0, x] | [1, code]; real: ('ok', Rec) | ('exn', code, text)"""
+def same_outcome(model_res, real_res, conv_fn, any_error=False):
+    """model: [0, x] | [1, code]; real: ('ok', Rec) | ('exn', code, text).
+    any_error: inputs outside the property's domain (malformed stream: a required field None, an ill-typed value) only
+    have to be REJECTED by both sides; which exception class surfaces there is not part of the property (a refactoring
+    of the attribute classes legitimately turns an AttributeError on None into protobuf's TypeError)."""
     if isinstance(model_res, tuple):
         return False
     if model_res[0] == 1:
         if real_res[0] != "exn":
             return False
+        if any_error:
+            return True
         mc, rc = model_res[1], real_res[1]
         return mc == rc or (mc == 3 and rc in (2, 3))
     if real_res[0] != "ok":
@@ -1015,8 +1020,9 @@ def run(ctx):
             mtype = cur.convs[conv]["msg"]
             comparable = typed(base, conv, actual) or stream == "malformed"
             if comparable:
-                ok1 = same_outcome(mt, r_to, lambda s: pmsg_from_sx(s, mtype))
-                ok2 = same_outcome(mr, r_rt, from_sx)
+                lenient = stream == "malformed"
+                ok1 = same_outcome(mt, r_to, lambda s: pmsg_from_sx(s, mtype), any_error=lenient)
+                ok2 = same_outcome(mr, r_rt, from_sx, any_error=lenient)
                 if not (ok1 and ok2):
                     mismatches += 1
                     ctx.violation("correspondence:C10.%s" % ("to_proto" if not ok1 else "roundtrip"),
